@@ -21,6 +21,10 @@ INST = {
     "F4b": dict(Cap=4, Labels=["a", "b"], Vals=["x"], MaxN=2, R=dict(BindPairs=[1, 23, 2, 31], PutIds=[1, 3], DataIds=[1, 3], AddIds=[0, 1, 2, 3])),
     "F4c": dict(Cap=4, Labels=["a"], Vals=["x"], MaxN=1, R=dict(BindPairs=[1, 2, 3, 12, 13, 23, 10, 32, 20, 21, 30, 31], PutIds=[0, 1, 2, 3], DataIds=[0, 1, 2, 3], AddIds=[0, 1, 2, 3])),
     "F5": dict(Cap=5, Labels=["a"], Vals=["x"], MaxN=1, R=dict(BindPairs=[1, 23, 2, 31, 4, 34], PutIds=[1, 3, 4], DataIds=[1, 3, 4], AddIds=[0, 1, 2, 3, 4])),
+    # slices: two labels, N=2, cycles / shared targets / two paths to one vertex; no data (no dangling edges)
+    "G3": dict(Cap=3, Labels=["a", "b"], Vals=["x"], MaxN=2, R=dict(BindPairs=[1, 2, 12, 20, 10], PutIds=[], DataIds=[], AddIds=[0, 1, 2])),
+    "G3p": dict(Cap=3, Labels=["a", "b"], Vals=["x"], MaxN=2, R=dict(BindPairs=[1, 2, 12, 20, 10], PutIds=[2], DataIds=[2], AddIds=[0, 1, 2])),
+    "G4": dict(Cap=4, Labels=["a", "b"], Vals=["x"], MaxN=2, R=dict(BindPairs=[1, 2, 12, 13, 23, 30], PutIds=[], DataIds=[], AddIds=[0, 1, 2, 3])),
     "S4": dict(Cap=4, Labels=["a"], Vals=["x"], MaxN=1, MaxGroups=1, MaxGroupSize=3, R=dict(BindPairs=[1, 23, 2, 31, 12], PutIds=[1, 3], DataIds=[1, 3], AddIds=[0, 1, 2, 3])),
 }
 # token -> concrete value maps, rotated over the label variants and the 8-byte boundary
@@ -74,7 +78,7 @@ def emit_module(inst):
 
 
 def cfg_emit(inst, extra_ops=()):
-    nxt = "NextR" if emit_module(inst) == "SodgR" else "NextX"
+    nxt = ("NextR2" if "slice" in extra_ops else "NextR") if emit_module(inst) == "SodgR" else "NextX"
     return (f"INIT Init\nNEXT {nxt}\nVIEW view\nACTION_CONSTRAINT Emit\n"
             + consts(inst, "Extra = " + tla_set(extra_ops) + r_consts(inst)) + "CHECK_DEADLOCK FALSE\n")
 
@@ -141,7 +145,7 @@ def e1_impl(run, acc, tier):
 
 
 # ----------------------------------------------------------------------------- E2
-def e2_product(run, acc, inst, cfgs, extra_ops=(), observers=(), budget=3000000):
+def e2_product(run, acc, inst, cfgs, extra_ops=(), observers=(), budget=3000000, need_gc=True):
     ts, cached = vlib.emit_ts(run, emit_module(inst), cfg_emit(inst, extra_ops))
     for (n, cap, tok) in cfgs:
         j = vlib.product(run, [ts], TOKENS[tok], n, cap, observers=observers, budget=budget)
@@ -155,7 +159,7 @@ def e2_product(run, acc, inst, cfgs, extra_ops=(), observers=(), budget=3000000)
         acc.e2.append(rec)
         if j["samples"]:
             acc.samples.append({"engine": "E2", "instance": rec["instance"], "n": n, "cap": cap, "path": j["samples"][-1]})
-        if j["collecting_transitions_executed"] == 0:
+        if need_gc and j["collecting_transitions_executed"] == 0:
             raise ToolError(f"vacuity: no collecting transition executed in instance {inst}")
         if j["witnesses"]:
             v = vlib.judge(run, j["witness_file"], n)
@@ -357,7 +361,33 @@ def plan_twin(run, prop, tier):
     return acc
 
 
+def slice_plan(tier, s):
+    if tier == "quick":
+        return [dict(profile="slice", n=4, cap=16, steps=1200, seed=s * 100 + 21, window=12),
+                dict(profile="slice", n=16, cap=64, steps=1200, seed=s * 100 + 22, window=13),
+                dict(profile="slice", n=2, cap=14, steps=1000, seed=s * 100 + 23, window=9)]
+    return [dict(profile="slice", n=n, cap=cap, steps=4000, seed=s * 1000 + 70 + i, window=w)
+            for i, (n, cap, w) in enumerate([(2, 14, 9), (3, 16, 12), (4, 16, 13), (8, 32, 13), (16, 64, 12), (16, 256, 13), (1, 12, 8)])]
+
+
+def plan_c13(run, prop, tier):
+    acc = Acc()
+    e1_world(run, acc, tier)
+    e2_product(run, acc, "C2", [(2, 2, 0), (4, 6, 2)], extra_ops=("slice",))
+    e2_product(run, acc, "G3", [(2, 3, 0), (16, 9, 1)], extra_ops=("slice",), need_gc=False)
+    if tier == "thorough":
+        e2_product(run, acc, "G3p", [(2, 3, 2)], extra_ops=("slice",))
+        e2_product(run, acc, "G4", [(2, 4, 0)], extra_ops=("slice",), budget=20000000, need_gc=False)
+        e2_product(run, acc, "A3", [(1, 3, 0)], extra_ops=("slice",))
+    for r in acc.e2:
+        if r["ops"].get("slice", 0) == 0:
+            raise ToolError("vacuity: no slice transition executed")
+    e3_drive(run, acc, slice_plan(tier, vlib.seed()), label="E3 slices")
+    return acc
+
+
 PLANS = {p: plan_gc for p in ("C01", "C02", "C03", "C04", "C06")}
+PLANS["C13"] = plan_c13
 PLANS["C05"] = plan_c05
 PLANS["C08"] = plan_twin
 PLANS["C10"] = plan_twin
